@@ -391,20 +391,33 @@ func (p tokPlan) build(r drv.Rand, payload, payload2 []byte) (string, sigDesc, e
 func malformed(r drv.Rand, kind string, good string) string {
 	parts := strings.Split(good, ".")
 	switch kind {
-	case "shape":
-		switch r.IntN(3) {
+	case "shape": // ParseToken answers ErrParse: segment count, base64, or payload not a JSON object
+		mid := func(p string) string { return parts[0] + "." + b64([]byte(p)) + "." + parts[2] }
+		switch r.IntN(10) {
 		case 0:
 			return parts[0] + "." + parts[1]
 		case 1:
 			return good + "." + parts[2]
-		default:
+		case 2:
 			return parts[0] + ".!!!." + parts[2]
+		case 3:
+			return mid(`null`)
+		case 4:
+			return mid(`[1,2]`)
+		case 5:
+			return mid(drv.Pick(r, []string{`"c-alpha"`, `42`, `true`}))
+		case 6:
+			return mid(``)
+		case 7:
+			return mid(" \t\r\n")
+		case 8:
+			return mid(` [{"iss":"c-alpha"}]`)
+		default:
+			return mid("\n null")
 		}
-	case "json":
-		if r.Bool() {
-			return parts[0] + "." + b64([]byte(`{"iss":`)) + "." + parts[2]
-		}
-		return parts[0] + "." + b64([]byte(`[1,2]`)) + "." + parts[2]
+	case "json": // payload starts like an object, json.Unmarshal fails: the raw error is returned
+		p := drv.Pick(r, []string{`{"iss":`, `{`, " \n{\"iss\":\"c-alpha\",", `{"iss":5}`, `{"iss":["c-alpha"]}`, `{"iss":"c-alpha"}}`})
+		return parts[0] + "." + b64([]byte(p)) + "." + parts[2]
 	}
 	return ""
 }
